@@ -7,6 +7,7 @@ ASSUMPTIONS = [
     "the compressor front end (match finders, block splitter, entropy-mode heuristics) is an oracle: its answers are validated per frame by the independent Lean decoder + conformance predicate",
     "inputs are bounded by the run's size limits (quick: 256 KiB); theorems are unbounded",
 ]
+VARIANTS = ["hufx1", "hufx2"]
 APIS = ["c2", "c2", "c2", "c2", "simple", "cctx", "adv", "udict", "ucdict"]
 
 
@@ -19,14 +20,16 @@ def gen_cases(ctx, n, maxsize):
         p = frames.param_vector(rng, ctx.quick()) if api == "c2" else {100: rng.choice([-3, 1, 3, 5, 9, 13, 17, 19])}
         if i % 12 == 5:
             # heavy profile: several full blocks of mixed compressibility through the optimal parser / splitter / sub-block paths
-            if rng.random() < 0.35:
+            if rng.random() < 0.3:
+                kind, x = "longlits", datagen.longlits(rng, rng.choice([131072, 100000, 200000, 262144, 262144 - 700]))
+            elif rng.random() < 0.35:
                 kind, x = "noisecopies", datagen.noisecopies(rng, rng.choice([131072, 131072, 200000, 262144]))
             elif rng.random() < 0.6:
                 kind, x = "blockstruct", datagen.blockstruct(rng, rng.choice([2, 3, 3, 4]) * 131072 - rng.choice([0, 0, 1, 5000]))
             else:
                 kind, x = "longcopies", datagen.longcopies(rng, rng.choice([140000, 270000, 400000]))
             api = "c2"
-            p = {100: rng.choice([16, 17, 18, 19])}
+            p = {100: rng.choice([16, 17, 18, 19] if kind != "longlits" else [1, 3, 5, 12, 19])}
             if rng.random() < 0.5: p[130] = rng.choice([1340, 1340, 2000, 6000])
             if rng.random() < 0.2: p[105] = 3
             if rng.random() < 0.3: p[1010] = 1
@@ -62,6 +65,15 @@ def run(ctx, cases, exe, want_conform=True):
             dl.append("dec %d %s" % (len(c["x"]), f))
         cl.append("conform %s %s %s %d %d" % (f, frames.hx(c["x"]), frames.hx(c["d"]), c["p"].get(1015, 0), fmt))
     cdec = frames.parallel(lambda ch: frames.run_lines(exe, ch)[1], frames.split_chunks(dl, 16))
+    # the same frames through the library built with each of its alternative decoder bodies forced (single-stream Huffman + short
+    # sequence decoder; double-symbol Huffman + prefetching sequence decoder)
+    for c in cases:
+        c["vdec"] = {}
+    for v in VARIANTS:
+        vexe = frames.harness(v)
+        vd = frames.parallel(lambda ch: frames.run_lines(vexe, ch)[1], frames.split_chunks(dl, 16))
+        for c, a in zip(cases, vd):
+            c["vdec"][v] = a
     want = frames.parallel(lambda ch: frames.run_lines(exe, ch)[1], frames.split_chunks(["xxh " + frames.hx(c["x"]) for c in cases], 16))
     for c, w in zip(cases, want):
         c["want"] = w
@@ -113,7 +125,7 @@ def correspondence(ctx):
         apis[c["api"]] = apis.get(c["api"], 0) + 1
         n_ = len(c["x"])
         sizes["0" if n_ == 0 else "<1K" if n_ < 1024 else "<64K" if n_ < 65536 else "<1M" if n_ < (1 << 20) else ">=1M"] += 1
-        rep = dict(kind="monitor", api=c["api"], params=c["p"], input_hex=frames.hx(c["x"])[:200000], dict_hex=frames.hx(c["d"]), frame=c["frame"][:400000])
+        rep = dict(kind="monitor", api=c["api"], params=c["p"], input_hex=frames.hx(c["x"])[:8400000], dict_hex=frames.hx(c["d"]), frame=c["frame"][:8400000])
         if c["frame"].startswith("err"):
             if c["frame"] in ("err parameter_outOfBound", "err parameter_unsupported"):
                 rejected_params += 1
@@ -122,6 +134,10 @@ def correspondence(ctx):
             continue
         if c["cdec"] != c["want"]:
             ctx.violation("round trip broken: ZSTD_decompress of the emitted frame gives %r, expected %r (api %s, params %s)" % (c["cdec"], c["want"], c["api"], frames.pstr(c["p"])), rep)
+            continue
+        bad = [v for v in VARIANTS if c.get("vdec", {}).get(v, c["want"]) != c["want"]]
+        if bad:
+            ctx.violation("round trip broken in the library built with decoder variant %s: ZSTD_decompress gives %r, expected %r (api %s, params %s)" % (bad[0], c["vdec"][bad[0]], c["want"], c["api"], frames.pstr(c["p"])), dict(rep, variant=bad[0]))
             continue
         if c["conform"].startswith("ok"):
             cov |= int(c["conform"].split("cov=")[1])
@@ -152,5 +168,5 @@ def replay(ctx, data):
     p = {int(k): v for k, v in (data.get("params") or {}).items()}
     cs = run(ctx, [dict(kind="replay", api=data.get("api", "c2"), p=p, x=x, d=d)], exe)
     c = cs[0]
-    bad = c["frame"].startswith("err") or c["cdec"] != c["want"] or not c["conform"].startswith(("ok", "viol"))
-    return dict(violates=bad, frame=c["frame"][:200], cdec=c["cdec"], conform=c["conform"][:300])
+    bad = c["frame"].startswith("err") or c["cdec"] != c["want"] or not c["conform"].startswith(("ok", "viol")) or any(a != c["want"] for a in c.get("vdec", {}).values())
+    return dict(violates=bad, variants=c.get("vdec"), frame=c["frame"][:200], cdec=c["cdec"], conform=c["conform"][:300])
